@@ -3,6 +3,8 @@ From Coq Require Import ZArith List Bool Lia.
 Import ListNotations.
 From FV.C11 Require Import Model BrickModel.
 Open Scope Z_scope.
+(* no sentence of this file may hold the shared Coq build lock for long *)
+Set Default Timeout 240.
 
 (* a node index decomposes uniquely into lattice digits *)
 Lemma digits3 n_x n_y a b c :
